@@ -16,7 +16,7 @@ import (
 //verif:stub MOD/pkg/obialign.FastLCSScore = vFastLCSScore
 //verif:stub MOD/pkg/obialign.D1Or0 = vD1Or0
 
-const vMaxRef = 4
+const vMaxRef = 6
 
 var (
 	vD      [vMaxRef]int
@@ -102,15 +102,22 @@ func vLcaLevel(x int) int {
 
 var vChoices = []int{4, 5, 7, 9, 6}
 
-func VerifC15_IndexSequence(l0, l1, l2, l3 int) { vIndexSequence(l0, l1, l2, l3, -1) }
+func VerifC15_IndexSequence(l0, l1, l2, l3 int) { vIndexSequence(l0, l1, l2, l3, 0, -1) }
 
 // the same with the taxa of references 1..3 fixed by the instance (txcode = their choices in base 5), which
 // makes four references of unequal lengths affordable
-func VerifC15_IndexSequenceTaxa(l0, l1, l2, l3, txcode int) { vIndexSequence(l0, l1, l2, l3, txcode) }
+// This variant is a finder: it also assumes that d differences destroy at least min(d, windows) of the shared
+// 4-mers (true of substitutions that create no repeated word), which steers the solver towards profiles real
+// sequences can have; a model is then materialised natively - real sequences, real kernels, distances from a
+// textbook dynamic program - and only a real violation is reported.
+func VerifC15_IndexSequenceTaxa(l0, l1, l2, l3, l4, txcode int) { vIndexSequence(l0, l1, l2, l3, l4, txcode) }
 
-func vIndexSequence(l0, l1, l2, l3, txcode int) {
-	lens := []int{l0, l1, l2, l3}
-	nref := 4
+func vIndexSequence(l0, l1, l2, l3, l4, txcode int) {
+	lens := []int{l0, l1, l2, l3, l4}
+	nref := 5
+	if l4 == 0 {
+		nref = 4
+	}
 	if l3 == 0 {
 		nref = 3
 	}
@@ -124,15 +131,21 @@ func vIndexSequence(l0, l1, l2, l3, txcode int) {
 	for i := 1; i < nref; i++ {
 		d[i], ali[i], cw[i], beyond[i], tx[i] = vInt(0, 12), vInt(0, 24), vInt(0, 12), vInt(0, 1), vInt(0, 4)
 	}
-	if !vSymbolic() {
-		return // abstract profiles are not replayable: see DESIGN (C15); the check reports them as inconclusive
-	}
 	d[0], ali[0], cw[0], tx[0] = 0, lq, lq-3, 0
-	if txcode >= 0 {
+	finder := txcode >= 0
+	if finder {
 		for i := 1; i < nref; i++ {
 			tx[i] = txcode % 5
 			txcode /= 5
 		}
+	}
+	if !vSymbolic() {
+		// abstract profiles are not replayable as such.  The finder variant materialises them (real sequences);
+		// the plain variant reports a model as inconclusive (see DESIGN, C15)
+		if finder {
+			vMaterialiseIndex(lens[:nref], d[:nref], cw[:nref], tx[:nref])
+		}
+		return
 	}
 	taxo := vTaxonomy()
 	taxa := make(obitax.TaxonSet, nref)
@@ -145,6 +158,9 @@ func vIndexSequence(l0, l1, l2, l3, txcode int) {
 		vAssume(ali[i] >= hi && ali[i] <= lq+lens[i] && ali[i]-d[i] >= 0 && ali[i]-d[i] <= lo)
 		vAssume(d[i] > 1 || ali[i] == hi)
 		vAssume(cw[i] >= 0 && cw[i] <= lo-3 && cw[i] >= hi-3-4*d[i])
+		if finder {
+			vAssume(cw[i] <= lo-3-vMin(d[i], lo-3))
+		}
 		vD[i], vAli[i], vCW[i], vBeyond[i] = d[i], ali[i], cw[i], beyond[i]
 		taxid := 4
 		for k, c := range vChoices {
@@ -183,4 +199,150 @@ func vIndexSequence(l0, l1, l2, l3, txcode int) {
 	}
 	vAssert(ok, "index-maps-each-recorded-distance-to-the-lca-of-the-references-within-it")
 	vReach("end")
+}
+
+// ---------- native materialisation (finder variant) ----------
+
+func vrIndexDist(a, b []byte) int {
+	n, m := len(a), len(b)
+	S := make([]int, (n+1)*(m+1))
+	L := make([]int, (n+1)*(m+1))
+	w := m + 1
+	for j := 0; j <= m; j++ {
+		L[j] = j
+	}
+	for i := 0; i <= n; i++ {
+		L[i*w] = i
+	}
+	for i := 1; i <= n; i++ {
+		for j := 1; j <= m; j++ {
+			s, l := S[(i-1)*w+j-1], L[(i-1)*w+j-1]+1
+			if a[i-1] == b[j-1] {
+				s++
+			}
+			s2, l2 := S[(i-1)*w+j], L[(i-1)*w+j]+1
+			if s2 > s || (s2 == s && l2 < l) {
+				s, l = s2, l2
+			}
+			s3, l3 := S[i*w+j-1], L[i*w+j-1]+1
+			if s3 > s || (s3 == s && l3 < l) {
+				s, l = s3, l3
+			}
+			S[i*w+j], L[i*w+j] = s, l
+		}
+	}
+	return L[n*w+m] - S[n*w+m]
+}
+
+// the property on real sequences with the real kernels: true = holds
+func vCheckRealIndex(raw [][]byte, tx []int) bool {
+	taxo := vTaxonomy()
+	n := len(raw)
+	taxa := make(obitax.TaxonSet, n)
+	refs := obiseq.MakeBioSequenceSlice()
+	tabs := make([]*obikmer.Table4mer, 0, n)
+	level := make([]int, n)
+	for i := range raw {
+		taxid := vChoices[tx[i]]
+		level[i] = vLcaLevel(taxid)
+		node, _ := taxo.Taxon(taxid)
+		taxa[i] = node
+		r := obiseq.NewBioSequence(string([]byte{byte('0' + i)}), raw[i], "")
+		refs = append(refs, r)
+		tabs = append(tabs, obikmer.Count4Mer(r, nil, nil))
+	}
+	idx := IndexSequence(0, refs, &tabs, &taxa, taxo)
+	dist := make([]int, n)
+	for i := range raw {
+		dist[i] = vrIndexDist(raw[0], raw[i])
+	}
+	lineage := []byte{'1', '2', '3', '4'}
+	for D, got := range idx {
+		want := 3
+		for i := 0; i < n; i++ {
+			if dist[i] <= D && level[i] < want {
+				want = level[i]
+			}
+		}
+		if !(len(got) > 2 && got[1] == '@' && got[0] == lineage[want]) {
+			return false
+		}
+	}
+	return true
+}
+
+// real sequences following the profile: reference i has the length of the instance, about d[i] differences from
+// the indexed sequence (the length difference as a suffix, the rest as substitutions packed at one end when it
+// shares many 4-mers, spread when it shares few)
+func vMaterialiseIndex(lens, d, cw, tx []int) {
+	alphabet := []byte("acgt")
+	rnd := uint64(2463534242)
+	next := func() uint64 {
+		rnd ^= rnd << 13
+		rnd ^= rnd >> 7
+		rnd ^= rnd << 17
+		return rnd
+	}
+	lq := lens[0]
+	for try := 0; try < 20000; try++ {
+		q := make([]byte, lq)
+		for i := range q {
+			q[i] = alphabet[next()%4]
+		}
+		raw := make([][]byte, len(lens))
+		raw[0] = q
+		for r := 1; r < len(lens); r++ {
+			b := make([]byte, lens[r])
+			for i := range b {
+				if i < lq {
+					b[i] = q[i]
+				} else {
+					b[i] = alphabet[next()%4]
+				}
+			}
+			n := vMin(lens[r], lq)
+			diff := lens[r] - lq
+			if diff < 0 {
+				diff = -diff
+			}
+			subs := d[r] - diff
+			if try >= 1000 {
+				subs += int(next()%3) - 1 // later tries wander around the profile
+			}
+			packed := cw[r] >= n-3-subs-1
+			mode := int(next() % 4)
+			for k := 0; k < subs && n > 0; k++ {
+				var pos int
+				switch {
+				case mode == 0 && packed:
+					pos = n - 1 - k%n
+				case mode == 0:
+					pos = (k*4 + 3) % n
+				case mode == 1:
+					pos = n - 1 - k%n
+				case mode == 2:
+					pos = (k*4 + 3) % n
+				default:
+					pos = int(next() % uint64(n))
+				}
+				c := alphabet[(int(next()%3)+1+vIndexOf(alphabet, b[pos]))%4]
+				b[pos] = c
+			}
+			raw[r] = b
+		}
+		if !vCheckRealIndex(raw, tx) {
+			vObserve("materialised-at-try", try)
+			vAssert(false, "index-maps-each-recorded-distance-to-the-lca-of-the-references-within-it")
+			return
+		}
+	}
+}
+
+func vIndexOf(al []byte, c byte) int {
+	for i, x := range al {
+		if x == c {
+			return i
+		}
+	}
+	return 0
 }
